@@ -880,7 +880,15 @@ pub fn scenario_hash(sc: &Scenario) -> u64 {
 // ---------------------------------------------------------------------------------------
 // minimisation: delta debugging over the explicit scenario, same violation class required
 
+thread_local! {
+    /// wall-clock bound of the current minimisation (read by the minimiser only)
+    static MIN_DEADLINE: std::cell::Cell<Option<std::time::Instant>> = const { std::cell::Cell::new(None) };
+}
+
 fn fails_same(sc: &Scenario, class: &str) -> bool {
+    if MIN_DEADLINE.with(|d| d.get()).map(|d| std::time::Instant::now() > d).unwrap_or(false) {
+        return false;
+    }
     let r = std::panic::catch_unwind(std::panic::AssertUnwindSafe(|| run(sc)));
     match r {
         Ok(o) => o.violation.map(|v| v.class == class).unwrap_or(false),
@@ -892,6 +900,9 @@ fn ddmin_vec<T: Clone>(items: &[T], mut test: impl FnMut(&[T]) -> bool) -> Vec<T
     let mut cur: Vec<T> = items.to_vec();
     let mut n = 2usize;
     while cur.len() >= 1 {
+        if MIN_DEADLINE.with(|d| d.get()).map(|d| std::time::Instant::now() > d).unwrap_or(false) {
+            break;
+        }
         let chunk = (cur.len() + n - 1) / n;
         let mut reduced = false;
         let mut i = 0;
@@ -917,6 +928,14 @@ fn ddmin_vec<T: Clone>(items: &[T], mut test: impl FnMut(&[T]) -> bool) -> Vec<T
 }
 
 pub fn minimise(sc: &Scenario, class: &str) -> Scenario {
+    // bounded: two minutes of wall clock; afterwards every candidate counts as "does not fail"
+    MIN_DEADLINE.with(|d| d.set(Some(std::time::Instant::now() + std::time::Duration::from_secs(120))));
+    let r = minimise_inner(sc, class);
+    MIN_DEADLINE.with(|d| d.set(None));
+    r
+}
+
+fn minimise_inner(sc: &Scenario, class: &str) -> Scenario {
     let mut cur = sc.clone();
     for _round in 0..4 {
         let before = scenario_hash(&cur);
